@@ -267,6 +267,22 @@ def registry_oracle(tier, seed):
     if not same(b1, hd) or not same(b2, hc):
         key = "C03:argument-modified:hydration:dictionaries"
         fails.append({"key": key, "clause": key, "ops": [{"function": "hydration"}]})
+    # the deprecated workspace form of the same call (one container holding both dictionaries), with and without constants
+    for with_c in (True, False):
+        ws = {"hydration_inputs": copy.deepcopy(b1)}
+        if with_c:
+            ws["hydration_constants"] = copy.deepcopy(b2)
+        before = copy.deepcopy(ws)
+        with warnings.catch_warnings():
+            warnings.simplefilter("ignore")
+            try:
+                dnp.hydration(ws)
+            except Exception:
+                pass
+        n_eval += 1
+        if list(ws.keys()) != list(before.keys()) or any(not same(before[k], ws[k]) for k in before):
+            key = "C03:argument-modified:hydration:workspace-container"
+            fails.append({"key": key, "clause": key, "ops": [{"function": "hydration", "form": "workspace", "constants": with_c}]})
     return fails, n_eval, outcomes
 
 
